@@ -771,7 +771,13 @@ func globalKey(obj types.Object) string {
 	return obj.Pkg().Name() + "." + obj.Name()
 }
 
-func (u *Unit) havocMods(st *State, m *modSet) {
+func (u *Unit) havocMods(st *State, m *modSet) { u.havocMods2(st, m, false) }
+
+// havocLoop is havocMods at a loop head: in functions with a declared frame the havocked
+// heap keeps the frame invariant.
+func (u *Unit) havocLoop(st *State, m *modSet) { u.havocMods2(st, m, len(u.frames) == 1) }
+
+func (u *Unit) havocMods2(st *State, m *modSet, loopFrame bool) {
 	entryClock := st.clock
 	u.tick(st)
 	for obj := range m.vars {
@@ -787,10 +793,10 @@ func (u *Unit) havocMods(st *State, m *modSet) {
 		if !m.all && len(m.allocKeys) > 0 {
 			partial = m.allocPred()
 		}
-		u.havocHeap2(st, m.pred(), partial, entryClock)
+		u.havocHeap3(st, m.pred(), partial, entryClock, loopFrame)
 	}
 	for g := range m.ghost {
-		u.havocGhost(st, g)
+		u.havocGhost2(st, g, loopFrame)
 	}
 }
 
@@ -851,10 +857,11 @@ func (u *Unit) execFor(st *State, x *ast.ForStmt, label string) []*Out {
 	ls, ord := u.loopSpec(x)
 	pos := x.Body.Lbrace
 	u.loopInvariants(st, ls, ord, "init", pos, nil, false)
+	u.loopFrame(st, ord, "init", pos)
 	h := st.clone()
 	mods := u.modified(x.Body, x.Post, x.Cond)
 	u.applyLoopModifies(h, ls, mods)
-	u.havocMods(h, mods)
+	u.havocLoop(h, mods)
 	u.loopInvariants(h, ls, ord, "", pos, nil, true)
 	var outs []*Out
 	c := TTrue
@@ -881,17 +888,59 @@ func (u *Unit) execFor(st *State, x *ast.ForStmt, label string) []*Out {
 				s = po[0].st
 			}
 			u.loopInvariants(s, ls, ord, "preserve", pos, nil, false)
+			u.loopFrame(s, ord, "preserve", pos)
 			if hasVar {
 				v1, _ := u.loopVariant(s, ls, pos, nil)
 				u.oblige(s, fmt.Sprintf("loop%d/decreases", ord), "decreases", ls.Decreases.Props, And(Le(IntLit(0), v0), Lt(v1, v0)), pos, ls.Decreases.Text)
 			}
 		case o.kind == oBreak && (o.label == "" || o.label == label):
+			u.loopFrame(o.st, ord, "break", pos)
 			outs = append(outs, &Out{kind: oNormal, st: o.st})
 		default:
 			outs = append(outs, o)
 		}
 	}
-	return u.joinNormals(outs)
+	return u.joinLoop(outs)
+}
+
+// loopFrame asserts the frame invariant (state outside the declared frame equals the entry
+// state) at loop entry and at every back edge; it is assumed for the havocked loop head.
+func (u *Unit) loopFrame(st *State, ord int, phase string, pos token.Pos) {
+	if len(u.frames) != 1 {
+		return
+	}
+	u.checkFrameAt(st, u.frames[0], pos, fmt.Sprintf("loop%d/frame-%s:", ord, phase))
+}
+
+// joinLoop merges the exits of a loop; every exit state satisfies the frame invariant
+// (assumed at the head, proved at breaks), so the merged state does too.
+func (u *Unit) joinLoop(outs []*Out) []*Out {
+	n := 0
+	for _, o := range outs {
+		if o.kind == oNormal {
+			n++
+		}
+	}
+	res := u.joinNormals(outs)
+	if n > 1 && len(u.frames) == 1 && u.old != nil {
+		for _, o := range res {
+			if o.kind != oNormal {
+				continue
+			}
+			if items, active := u.frameItems(u.frames[0]); active {
+				for _, k := range sortedKeys(o.st.heap) {
+					goals, covered := u.frameGoals(items, k, o.st.heap[k])
+					if covered {
+						continue
+					}
+					for _, g := range goals {
+						o.st.assume(g)
+					}
+				}
+			}
+		}
+	}
+	return res
 }
 
 func (u *Unit) loopAnchor(st *State, ord int, what string, pos token.Pos) {
@@ -958,6 +1007,7 @@ func (u *Unit) execRange(st *State, x *ast.RangeStmt, label string) []*Out {
 			u.declareOrStore(st, keyObj, intV(idx0), x.Tok == token.DEFINE)
 		}
 		u.loopInvariants(st, ls, ord, "init", pos, extra, false)
+		u.loopFrame(st, ord, "init", pos)
 		h := st.clone()
 		mods := u.modified(x.Body)
 		if keyObj != nil {
@@ -966,7 +1016,7 @@ func (u *Unit) execRange(st *State, x *ast.RangeStmt, label string) []*Out {
 		if valObj != nil {
 			mods.vars[valObj] = true
 		}
-		u.havocMods(h, mods)
+		u.havocLoop(h, mods)
 		i := u.d.Fresh("range_i", SInt)
 		h.assume(Le(IntLit(0), i))
 		h.assume(Le(i, n))
@@ -1014,13 +1064,15 @@ func (u *Unit) execRange(st *State, x *ast.RangeStmt, label string) []*Out {
 					u.store(s, LV{kind: lvVar, obj: keyObj, T: keyObj.Type()}, intV(i1))
 				}
 				u.loopInvariants(s, ls, ord, "preserve", pos, ex2, false)
+				u.loopFrame(s, ord, "preserve", pos)
 			case o.kind == oBreak && (o.label == "" || o.label == label):
+				u.loopFrame(o.st, ord, "break", pos)
 				outs = append(outs, &Out{kind: oNormal, st: o.st})
 			default:
 				outs = append(outs, o)
 			}
 		}
-		return u.joinNormals(outs)
+		return u.joinLoop(outs)
 	case *types.Map, *types.Chan:
 		return u.execRangeOpaque(st, x, label, ls, ord)
 	}
@@ -1049,6 +1101,7 @@ func (u *Unit) execRangeOpaque(st *State, x *ast.RangeStmt, label string, ls *Lo
 	xt := info.TypeOf(x.X)
 	coll := u.eval(st, x.X)
 	u.loopInvariants(st, ls, ord, "init", pos, nil, false)
+	u.loopFrame(st, ord, "init", pos)
 	h := st.clone()
 	mods := u.modified(x.Body)
 	bind := func(e ast.Expr) types.Object {
@@ -1071,7 +1124,7 @@ func (u *Unit) execRangeOpaque(st *State, x *ast.RangeStmt, label string, ls *Lo
 	if valObj != nil {
 		mods.vars[valObj] = true
 	}
-	u.havocMods(h, mods)
+	u.havocLoop(h, mods)
 	u.loopInvariants(h, ls, ord, "", pos, nil, true)
 	var outs []*Out
 	exs := h.clone()
@@ -1103,13 +1156,15 @@ func (u *Unit) execRangeOpaque(st *State, x *ast.RangeStmt, label string, ls *Lo
 		case o.kind == oNormal, o.kind == oContinue && (o.label == "" || o.label == label):
 			u.loopAnchor(o.st, ord, "iterend", pos)
 			u.loopInvariants(o.st, ls, ord, "preserve", pos, nil, false)
+			u.loopFrame(o.st, ord, "preserve", pos)
 		case o.kind == oBreak && (o.label == "" || o.label == label):
+			u.loopFrame(o.st, ord, "break", pos)
 			outs = append(outs, &Out{kind: oNormal, st: o.st})
 		default:
 			outs = append(outs, o)
 		}
 	}
-	return u.joinNormals(outs)
+	return u.joinLoop(outs)
 }
 
 // execGotoRegion treats "label: stmts..." with a label invariant like a loop whose back
